@@ -79,6 +79,10 @@ def make_dumps(R, idx):
     p = R.path("c18-%d.elf" % idx)
     dumpgen.write_elf(p, segs)
     d["elf"] = (p, [s["pfn"] + i for s in segs for i in range(s["npages"])], dict(writer="write_elf", segs=segs))
+    # the same segments with per-CPU PRSTATUS notes and VMCOREINFO: per-CPU blob attributes and their derived registers are allocated at open
+    p = R.path("c18-%d.elfn" % idx)
+    dumpgen.write_elf(p, segs, notes=dumpgen.std_notes())
+    d["elfn"] = (p, [s["pfn"] + i for s in segs for i in range(s["npages"])], dict(writer="write_elf", segs=segs, notes="std_notes"))
     p = R.path("c18-%d.uelf" % idx)
     first, npg = rng.randint(4, 20), rng.randint(36, 48)
     shift = rng.choice([2048, 512, 1024, 3000])
@@ -158,6 +162,8 @@ def scenarios(R, dumps, first):
     add("clonex-elf", "clonex {n} {t} %s %s" % (e[0], pl(e[1])), "elf")
     add("clonex-dd", "clonexs1 {n} {t} %s %s" % (dd[0], pl(dd[1])), "dd")
     add("open-elf", "open {n} {t} %s -1 %s" % (e[0], pl(e[1])), "elf")
+    en = dumps["elfn"]
+    add("open-elf-notes", "open {n} {t} %s -1 %s" % (en[0], pl(en[1])), "elfn")
     add("open-elf-nommap", "open {n} {t} %s 0 %s" % (e[0], pl(e[1])), "elf")
     add("open-dd", "open {n} {t} %s -1 %s" % (dd[0], pl(dd[1])), "dd")
     add("open-flat", "open {n} {t} %s -1 %s" % (fl[0], pl(fl[1])), "flat")
@@ -540,7 +546,8 @@ def replay(R, path):
     if d and "writer" in d:
         p = R.path("replay.dump")
         if d["writer"] == "write_elf":
-            dumpgen.write_elf(p, d["segs"], machine=d.get("machine", "x86_64"), elfclass=d.get("elfclass", 64), be=d.get("be", False))
+            dumpgen.write_elf(p, d["segs"], machine=d.get("machine", "x86_64"), elfclass=d.get("elfclass", 64), be=d.get("be", False),
+                              notes=dumpgen.std_notes() if d.get("notes") == "std_notes" else b"")
         elif d["writer"] == "write_elf_unaligned":
             dumpgen.write_elf_unaligned(p, d["pfn"], d["npages"], shift=d["shift"])
         elif d["writer"] == "write_lkcd":
